@@ -8,10 +8,11 @@
 (*          arithmetic) and that the int and Word transcriptions agree; every  *)
 (*          layout is emitted for replay on the real code.                     *)
 (*  wrap    the same criterion on a machine whose usize has K bits, strides    *)
-(*          0..2^K-1: TLC enumerates the space and emits every layout the      *)
-(*          K-bit criterion accepts although it is not injective (candidates,  *)
-(*          scaled to 64 bits: stride * 2^(64-K)) and every layout on which    *)
-(*          wrapping changes the verdict.                                      *)
+(*          0..2^K-1: with CHECKED arithmetic (the current code) acceptance    *)
+(*          implies injectivity; with WRAPPING arithmetic (the code before the  *)
+(*          repair) TLC emits every layout that was accepted although it is not  *)
+(*          injective and every layout on which wrapping changes the verdict     *)
+(*          (boundary inputs, scaled to 64 bits: stride * 2^(64-K)).             *)
 (*  derived closure of contiguous layouts under slice / step / index /        *)
 (*          permute / insert-axis / squeeze / merge-axes (LayoutOps): TLC      *)
 (*          checks each is accepted by the criterion and injective; emitted.   *)
@@ -32,11 +33,12 @@ ShapesSmall == UNION {[1..r -> 0..MaxSize] : r \in 0..MaxRank}
 StridesSmall(r) == [1..r -> 0..MaxStride]
 
 Sound == ~MayOverlapImpl(lay.shape, lay.strides) => Injective(lay.shape, lay.strides)
-\* the three transcriptions (int, Word exact, Word wrapping) agree where no wrap can occur
+\* all transcriptions (int; Word exact / checked / wrapping) agree where no overflow can occur
 AgreeW ==
   LET a == MayOverlapImpl(lay.shape, lay.strides) IN
-  /\ a = MayOverlapImplW(WSeq(lay.shape), WSeq(lay.strides), FALSE)
-  /\ a = MayOverlapImplW(WSeq(lay.shape), WSeq(lay.strides), TRUE)
+  /\ a = MayOverlapImplW(WSeq(lay.shape), WSeq(lay.strides), "exact")
+  /\ a = MayOverlapImplW(WSeq(lay.shape), WSeq(lay.strides), "checked")
+  /\ a = MayOverlapImplW(WSeq(lay.shape), WSeq(lay.strides), "wrap")
   /\ InjectiveW(WSeq(lay.shape), WSeq(lay.strides))
        = (IF Injective(lay.shape, lay.strides) THEN "yes" ELSE "no")
   /\ InjectiveFast(lay.shape, lay.strides) = Injective(lay.shape, lay.strides)
@@ -47,8 +49,10 @@ EmitSmall == PrintT(<<"REPLAY", ToJson([class |-> "small", shape |-> lay.shape, 
 M == 2 ^ K
 ShapesWrap == UNION {[1..r -> 0..MaxSize] : r \in 1..MaxRank}
 StridesWrap(r) == [1..r -> 0..(M - 1)]
-WrapAccepts == ~MayOverlapImplM(lay.shape, lay.strides, M, TRUE)
-ExactAccepts == ~MayOverlapImplM(lay.shape, lay.strides, 0, TRUE)
+\* the code before the repair (wrapping), the current code (checked) and exact arithmetic
+WrapAccepts == ~MayOverlapImplM(lay.shape, lay.strides, M, TRUE, "wrap")
+CheckedAccepts == ~MayOverlapImplM(lay.shape, lay.strides, M, TRUE, "checked")
+ExactAccepts == ~MayOverlapImplM(lay.shape, lay.strides, 0, TRUE, "exact")
 Candidate == WrapAccepts /\ ~Injective(lay.shape, lay.strides)
 Scale == WPow2(64 - K)
 EmitWrap ==
@@ -56,17 +60,21 @@ EmitWrap ==
     PrintT(<<"REPLAY", ToJson([class |-> (IF Candidate THEN "wrap_candidate" ELSE "wrap_sensitive"),
                                shapeW |-> WSeq(lay.shape),
                                stridesW |-> [i \in 1..Len(lay.strides) |-> WMul(FromNat(lay.strides[i]), Scale)]])>>)
-\* exact arithmetic never accepts a non-injective layout in this space either
-SoundExactScaled == ExactAccepts => Injective(lay.shape, lay.strides)
+\* exact arithmetic never accepts a non-injective layout in this space either,
+\* and neither does the K-bit machine with CHECKED arithmetic (the repaired code)
+SoundExactScaled == /\ ExactAccepts => Injective(lay.shape, lay.strides)
+                    /\ CheckedAccepts => Injective(lay.shape, lay.strides)
+                    /\ CheckedAccepts => ExactAccepts
 \* the Word-level decision (with its scaling shortcut) agrees with the contract on the scaled layout
 ScaledW == [i \in 1..Len(lay.strides) |-> WMul(FromNat(lay.strides[i]), Scale)]
 InjWScaledOk ==
   InjectiveW(WSeq(lay.shape), ScaledW) = (IF Injective(lay.shape, lay.strides) THEN "yes" ELSE "no")
 InjWRefOk ==
   InjectiveWRef(WSeq(lay.shape), ScaledW) = (IF Injective(lay.shape, lay.strides) THEN "yes" ELSE "no")
-\* and the Word transcription of the criterion, wrapping at 2^64 on the scaled strides,
-\* is the K-bit int transcription
-WrapAgree == MayOverlapImplW(WSeq(lay.shape), ScaledW, TRUE) = ~WrapAccepts
+\* and the Word transcriptions of the criterion at 2^64 on the scaled strides are the K-bit int
+\* transcriptions (wrapping and checked)
+WrapAgree == /\ MayOverlapImplW(WSeq(lay.shape), ScaledW, "wrap") = ~WrapAccepts
+             /\ MayOverlapImplW(WSeq(lay.shape), ScaledW, "checked") = ~CheckedAccepts
 
 \* ---------------------------------------------------------------- derived
 Norm(l) == [l EXCEPT !.base = 0]
